@@ -174,7 +174,7 @@ func effectFree(name string) bool {
 		"strings.", "math.", "unicode.", "encoding/hex.", "(context.Context).", "context.", "math/rand.", "sort.Search", "(github.com/google/uuid.UUID).String",
 		"(github.com/tokenized/pkg/bitcoin.Hash32).String", "(*github.com/tokenized/pkg/bitcoin.Hash32).String", "(*math/big.Int).Text", "(*math/big.Int).String",
 		"github.com/google/uuid.New", "(*github.com/tokenized/threads.", "github.com/tokenized/threads.", "net.", "(net.", "(*net.", "os.", "(*sync.WaitGroup).",
-		"runtime.", "(*sync.Once).", "(*bytes.Buffer).", "(*bytes.Reader).", "bytes.", "crypto/", "(crypto/", "hash.", "unicode/utf8.", "(*github.com/tokenized/threads.WaitingBuffer).", "(net.IP).", "(*math/rand.", "github.com/tokenized/pkg/wire.New"} {
+		"runtime.", "(*sync.Once).", "(*bytes.Buffer).", "(*bytes.Reader).", "bytes.", "crypto/", "(crypto/", "hash.", "unicode/utf8.", "(*github.com/tokenized/threads.WaitingBuffer).", "(net.IP).", "(*math/rand.", "github.com/tokenized/pkg/wire.New", "github.com/tokenized/pkg/wire.VarIntSerializeSize", "(*github.com/tokenized/pkg/wire.MsgTx).SerializeSize"} {
 		if strings.HasPrefix(name, p) {
 			return true
 		}
